@@ -92,7 +92,7 @@ func (a *c03Acc) bug(msg string) {
 
 var (
 	c03Amounts    = []uint64{1000, 1_000_000, 2_100_000_000_000_000}
-	c03BtcLayouts = []string{"S", "SC", "CS", "SCC", "CSC", "CCS", "SE", "ES", "CES"}
+	c03BtcLayouts = []string{"S", "SC", "CS", "SCC", "CSC", "CCS", "SE", "ES", "CES", "SD", "DS", "DCS"}
 	c03Paths      = []string{"preimage", "coop", "csv"}
 )
 
@@ -496,7 +496,7 @@ func TestC03(t *testing.T) {
 	}
 	rep.Rule = "for every opening transaction (swap output index 0..2, extra / equal-valued outputs, 1..3 inputs; Liquid: every position of swap / change / fee output, blinded or explicit or duplicated swap output, CSV 60 and 10080) x amount x path {preimage, coop, csv} x fee answer x secrets {right, wrong}: the transaction the real wallet adapter hands to the node for broadcast spends (opening txid, index of the swap output), is accepted by consensus rules with the right secrets (CSV path exactly from CSV confirmations on, the others immediately) and rejected with wrong ones, has exactly one non-fee output paying an address handed out by the wallet in that call, conserves value with 0 < out and in-out <= bound, and its signatures stop verifying when the spent amount is changed"
 	rep.Alphabets = map[string]any{
-		"amounts_sat": c03Amounts, "btc_layouts(S=swap,C=change,E=wallet output with value==amount)": c03BtcLayouts, "btc_inputs": []int{1, 2, 3},
+		"amounts_sat": c03Amounts, "btc_layouts(S=swap,C=change,E=wallet output with value==amount,D=decoy output with the swap script and another value)": c03BtcLayouts, "btc_inputs": []int{1, 2, 3},
 		"paths": c03Paths, "btc_fee_answers_sat_per_kw": c03FeeModes, "secrets": map[string][]string{"preimage": c03Secrets("preimage"), "coop": c03Secrets("coop"), "csv": c03Secrets("csv")},
 		"liquid": lq["alphabets"],
 		"minieval_crosscheck": map[string]any{"max_stack_len": maxLen, "items": 10, "sequences": 8, "versions": 2, "csv": []int{1008, 60, 10080}},
